@@ -11,11 +11,17 @@
     the call (C05), so a finished fragment leaves the loop stack as it found it;
   * scopes: blocks, loops and calls restore the scope height (C03, C04, C05);
   * heap: discarded containers are unreachable and a collection never changes reachable data (C07).
-  `compose` itself (output of P1;P2 = output of P1 ++ output of P2) needs the control refinement and
-  the renaming invariance of arena indices (DESIGN.md §6); it is decided meanwhile by the C19
-  metamorphic check on the implementation (three runs per pair) and against the model.
+  Composition (refinement): `seq_meaning` — the structured meaning of `P1; P2` is the meaning of `P1`
+  and, when that ends normally, the meaning of `P2` started in the state `P1` left; with
+  `C02.whole_program` this holds for the flat runs.  `fragment_leaves_frames` — a fragment that ends
+  normally leaves the loop stack and scope depth unchanged and at most some `true` flags on the flag stack,
+  which no later statement reads (`if_else_ignore_deeper_flags`).  What remains for the full `compose`
+  statement (P2's *output* from P1's end state equals P2's output from the initial state when they share
+  no names) is a relational invariance of the evaluator under adding unrelated bindings and under the
+  renaming of arena indexes; it is decided by the C19 metamorphic check (three runs per pair).
 -/
 import Pakhi.Props.C02
+import Pakhi.Lemmas.FrameInv
 
 namespace Pakhi
 namespace C19
@@ -85,6 +91,28 @@ theorem loop_leaves_no_residue (prog : List Stmt) (f : Nat) (lm bm cm : Meta) (c
 /-- the end of a program is recognised whatever is left on the loop and flag stacks -/
 theorem end_marker_ignores_residue (prog : List Stmt) (g : GcMode) (f k : Nat) (m : Meta) (rest : List Stmt) (s : St) :
     runLoop prog g (f+1) k (.eos m :: rest) s = .ok s := by simp [runLoop]
+
+
+/-- the meaning of `P1; P2` -/
+theorem seq_meaning (prog : List Stmt) (G : Nat) (p1 p2 : SList) (k : List Stmt) (s : St) :
+    sList prog G (p1.append p2) k s =
+      (sList prog G p1 (p2.flatten ++ k) s).bind fun x =>
+        match x.1 with
+        | .normal => sList prog G p2 k x.2
+        | sig => .ok (sig, x.2) := sList_append G p1 p2 k s
+
+/-- the flat code of `P1; P2` is the code of `P1` followed by the code of `P2` -/
+theorem seq_code (p1 p2 : SList) : (p1.append p2).flatten = p1.flatten ++ p2.flatten := SList.flatten_append p1 p2
+
+/-- a statement that ends normally leaves no control residue except `true` flags: loop stack and scope depth as before -/
+theorem fragment_leaves_frames {prog : List Stmt} {α : Type} (h : Structured prog) (D : Driver prog α) (t : SStmt) (F : Nat)
+    (k : List Stmt) (s s' : St) (r : Res α) (hw : t.WF) (hc : t.Closed false) (hk : notElse k)
+    (hsuf : IsSuffixOf (t.flatten ++ k) prog) (hs : StOK (GoodFn prog) prog s) (hrun : D.run F (t.flatten ++ k) s = r) (hr : r ≠ .fuel)
+    (hsem : sStmt prog F t k s = .ok (.normal, s')) :
+    s'.loops = s.loops ∧ s'.scopes.length = s.scopes.length ∧ ∃ j, s'.flags = List.replicate j true ++ s.flags := by
+  have := stmt_refines h D t F k s none false r hw hc hk rfl hsuf hs hrun hr
+  rw [hsem] at this
+  exact ⟨this.2.1.loops, this.2.1.depth, this.2.1.flags⟩
 
 end C19
 end Pakhi
